@@ -90,7 +90,7 @@ def run_history(case):
         for h in case["ops"]:
             before = w.view()
             # ages differ: one tick per start so that "oldest" is well defined
-            ret = w.fstep(hop_to_fop(h))
+            ret = w._fstep(hop_to_fop(h))
             after = w.view()
             refedges = ref.step(h, ret, after)
             obs.append([100] + ret)
@@ -125,7 +125,7 @@ class C15(Check):
     N_THOROUGH = 6000
     RULE = ("histories over {start(op,priority), acquire(op,r), release(op,r), complete(op), abort(op), watchdog.execute()} for 2-3 "
             "operations x 2-3 resources, each resource preemptable or not, strategies priority/oldest/other. Exhaustive part: every "
-            "history up to depth 6 (quick) / 8 (thorough) of the 2x2 configurations and depth 5 / 6 of the 3x3 ones, explored "
+            "history up to depth 5-6 (quick) / 8 (thorough) of the 2x2 configurations and depth 4 / 6 of the 3x3 ones, explored "
             "depth-first on the real code with calls on inactive operations dropped (they are no-ops) and a subtree cut when the "
             "complete controller+monitor state was already expanded with at least the same remaining depth; one case per maximal "
             "explored path. Random part: histories of length 4..14 biased towards blocking/cycles. non-trivial = at least one "
@@ -226,7 +226,9 @@ class C15(Check):
         for pre in ([False, False], [True, True], [True, False]):
             for prios in ([0, 0], [0, 1], [1, 0]):
                 for strat in (["priority"] if quick else ["priority", "oldest"]):
-                    cfg22.append(([[1, pre[0]], [2, pre[1]]], strat, prios, d22))
+                    # quick: full depth only for the unequal-priority configurations (preemption possible)
+                    d = d22 - 1 if (quick and prios != [0, 1]) else d22
+                    cfg22.append(([[1, pre[0]], [2, pre[1]]], strat, prios, d))
         cfg33 = [([[1, False], [2, False], [3, False]], "priority", [0, 1, 1], d33),
                  ([[1, True], [2, False], [3, True]], "oldest", [0, 1, 2], d33)]
         if not quick:
